@@ -11,7 +11,11 @@ E1(z) == Leaf \cup MapReduces \cup Combos
 Ops2(z) == E1(z) \cup Twice \cup Stacks(Leaf, {2})
 \* a fan-in that is not the tail of a copied scope / base: MapReduce >> mapper >> stack, stack of (MapReduce >> mapper)
 FanIn(z) == Seqs(Seqs(MapReduces, Mappers), Stacks(Mappers, {2})) \cup Stacks(Seqs(MapReduces, Mappers), {2})
-E2(z) == Seqs(E1(z), Ops2(z)) \cup Stacks(Leaf, {2, 3}) \cup Seqs(Stacks(Leaf, {2}), Leaf) \cup FanIn(z)
+\* explicit scoping: a parenthesised group on the RIGHT of >> closed by a scope-wrapping operator - a >> (m >> stack),
+\* a >> (m >> twice) - the only shape in which a compound is composed with an outer scope
+RightNested(z) == Seqs(Mappers, Seqs(Leaf, Stacks(Mappers, {2}) \cup Twice))
+                  \cup Seqs(Mappers, Seqs(Seqs(Mappers, Mappers), Stacks(Mappers, {2})))
+E2(z) == Seqs(E1(z), Ops2(z)) \cup Stacks(Leaf, {2, 3}) \cup Seqs(Stacks(Leaf, {2}), Leaf) \cup FanIn(z) \cup RightNested(z)
 E3(z) == Seqs(Seqs(E1(z), E1(z)), Ops2(z)) \cup Seqs(E1(z), Seqs(E1(z), Ops2(z))) \cup Seqs(Seqs(E1(z), Stacks(Leaf, {2})), Leaf)
          \cup Stacks(Seqs(Leaf, Leaf), {2}) \cup Seqs(Leaf, Stacks(Seqs(Leaf, Leaf), {2}))
 Universe(z) == CASE Level = 1 -> E1(z) [] Level = 2 -> E1(z) \cup E2(z) [] OTHER -> E1(z) \cup E2(z) \cup E3(z)
